@@ -618,7 +618,7 @@ def _add_source_insert_guard(e, self, source, skip_cycle_check, old):
         return True
     db0 = db_of(old.self)
     ok_args = tm.And(tm.Eq(I(e.args[0]), I(source.i)), tm.Eq(I(e.args[1]), I(self.i)))
-    return wrap_bool(tm.And(ok_args, tm.Or(B(skip_cycle_check), tm.Not(reach(db0, self.i, source.i)))))
+    return wrap_bool(tm.And(ok_args, tm.Or(C08_claims.cycle_checked(self.i, source.i), tm.Not(reach(db0, self.i, source.i)))))
 
 
 CyclicError = common.excmod.CyclicError
@@ -631,9 +631,20 @@ _as.props = list(_as.props) + ["C09"]
 _as.verify = True
 _as.args = dict(self=_add_source_self, source=lambda a: fresh_node(Step, a["self"].graph, "source"), skip_cycle_check=ty.Bool)
 _as.events = {"sql": _add_source_insert_guard}
+# the cycle check may be skipped only for an edge that a batch check (check_sources_acyclic on the same sink) covered
+_as.requires = lambda self, source, skip_cycle_check: wrap_bool(
+    tm.Implies(B(skip_cycle_check), C08_claims.cycle_checked(self.i, source.i)))
 _as.raises = {}
 _as.may_raise = {CyclicError: lambda self, source, skip_cycle_check, old: wrap_bool(
     tm.And(tm.Not(B(skip_cycle_check)), reach(db_of(old.self), self.i, source.i))), GraphError: None}
 _as.env = dict(sqlite3=type("sqlite3", (), dict(IntegrityError=type("IntegrityError", (Exception,), {}))))
 trusted.trusted("dependency graph: inserting the edge a -> b into an acyclic graph closes a cycle iff b reaches a "
                 "(graph theory); RECURSE_SINKS computes the nodes reachable from its seed (assumed closure)")
+
+
+# the call sites of Node.add_source: the precondition (a skipped cycle check is covered by a batch check) is an
+# obligation of C09 in every function that adds an edge
+from contracts import C03_inputs  # noqa: E402
+
+for _c in (C03_inputs.wf_amend_step, C08_claims.define_step, C03_inputs.supply_files_assumed):
+    _c.partial_props = dict(_c.partial_props, C09=["call.Node.add_source"])
